@@ -1,7 +1,8 @@
-use std::fmt::Display;
+use std::{cmp::Ordering, fmt::Display};
 
 use num_traits::AsPrimitive;
 
+use super::number::Num;
 use crate::{InputType, InputValueError};
 
 pub fn maximum<T, N>(value: &T, n: N) -> Result<(), InputValueError<T>>
@@ -9,6 +10,22 @@ where
     T: AsPrimitive<N> + InputType,
     N: PartialOrd + Display + Copy + 'static,
 {
+    // numbers of primitive types are compared by their exact values
+    if let (Some(value), Some(bound)) = (Num::new(value), Num::new(&n)) {
+        return if matches!(
+            value.partial_cmp(bound),
+            Some(Ordering::Less | Ordering::Equal)
+        ) {
+            Ok(())
+        } else {
+            Err(format!(
+                "the value is {}, must be less than or equal to {}",
+                value, n
+            )
+            .into())
+        };
+    }
+
     if value.as_() <= n {
         Ok(())
     } else {
@@ -30,5 +47,28 @@ mod tests {
         assert!(maximum(&99, 100).is_ok());
         assert!(maximum(&100, 100).is_ok());
         assert!(maximum(&101, 100).is_err());
+    }
+
+    #[test]
+    fn test_maximum_mixed_types() {
+        // the bound of `#[graphql(validator(maximum = ...))]` is an `i64` or `f64`
+        assert!(maximum(&100u64, 100i64).is_ok());
+        assert!(maximum(&u64::MAX, 100i64).is_err());
+        assert!(maximum(&100.0f64, 100i64).is_ok());
+        assert!(maximum(&100.5f64, 100i64).is_err());
+        assert!(maximum(&-100.5f64, -100i64).is_ok());
+        assert!(maximum(&1e300f64, i64::MAX).is_err());
+        assert!(maximum(&0.5f32, 0i64).is_err());
+        assert!(maximum(&9007199254740992i64, 9007199254740992.0f64).is_ok());
+        assert!(maximum(&9007199254740993i64, 9007199254740992.0f64).is_err());
+        assert!(maximum(&100i8, 100.5f64).is_ok());
+        assert!(maximum(&101u8, 100.5f64).is_err());
+        assert_eq!(
+            maximum(&u64::MAX, 100i64)
+                .unwrap_err()
+                .into_server_error(Default::default())
+                .message,
+            "Failed to parse \"Int\": the value is 18446744073709551615, must be less than or equal to 100"
+        );
     }
 }
